@@ -109,6 +109,10 @@ class _Transform(ast.NodeTransformer):
                     out.append(ast.parse('from pyvc.proxies import scipyx as scipy').body[0])
                 self.log.append('T3 `import %s` -> pyvc.proxies' % a.name)
                 continue
+            if a.name == 'matplotlib.pyplot' and self.stack:
+                self.log.append('T3 function-local `import matplotlib.pyplot as %s` -> pyvc.proxies.pyplotx (recording no-op)' % bind)
+                out.append(ast.parse('from pyvc.proxies import pyplotx as %s' % bind).body[0])
+                continue
             if top in _PROXY_IMPORTS and a.name == top:
                 self.log.append('T3 `import %s as %s` -> pyvc.proxies.%s' % (a.name, bind, _PROXY_IMPORTS[top]))
                 out.append(ast.parse('from pyvc.proxies import %s as %s' % (_PROXY_IMPORTS[top], bind)).body[0])
